@@ -28,11 +28,12 @@ import (
 const simImport = "github.com/clbanning/mxj/v2/verifsim"
 
 type edit struct {
-	off  int // byte offset in file
-	del  int // bytes to delete at off
-	text string
-	seq  int // tie-break: keeps insertion order stable at equal offsets
-	late bool
+	off   int // byte offset in file
+	del   int // bytes to delete at off
+	text  string
+	seq   int // tie-break: keeps insertion order stable at equal offsets
+	late  bool
+	early bool
 }
 
 type site struct {
@@ -43,26 +44,28 @@ type site struct {
 }
 
 type summary struct {
-	Files        []string `json:"files"`
-	Sites        []site   `json:"sites"`
-	YieldSites   int      `json:"yield_sites"`
-	MapRange     int      `json:"map_range_sites"`
-	MapKeys      int      `json:"map_keys_sites"`
-	ClockSites   int      `json:"clock_sites"`
-	DiskSites    int      `json:"disk_sites"`
-	Globals      []string `json:"globals"`
-	GoStmts      int      `json:"go_statements"`
-	SyncUses     []string `json:"sync_uses"`
-	ChanUses     int      `json:"chan_uses"`
-	SelectStmts  int      `json:"select_statements"`
-	LockSites    int      `json:"lock_sites_rewritten"`
-	OnceSites    int      `json:"once_sites_rewritten"`
-	PoolSites    int      `json:"pool_sites_rewritten"`
-	WGSites      int      `json:"waitgroup_sites_rewritten"`
-	ChanSites    int      `json:"channel_sites_rewritten"`
-	Unmodelled   []string `json:"unmodelled_blocking"`
-	DiskMode     string   `json:"disk_mode"`
-	LoopVarWarns []string `json:"loopvar_capture_warnings"`
+	Files          []string `json:"files"`
+	Sites          []site   `json:"sites"`
+	YieldSites     int      `json:"yield_sites"`
+	MapRange       int      `json:"map_range_sites"`
+	MapKeys        int      `json:"map_keys_sites"`
+	ClockSites     int      `json:"clock_sites"`
+	DiskSites      int      `json:"disk_sites"`
+	Globals        []string `json:"globals"`
+	GoStmts        int      `json:"go_statements"`
+	SyncUses       []string `json:"sync_uses"`
+	ChanUses       int      `json:"chan_uses"`
+	SelectStmts    int      `json:"select_statements"`
+	LockSites      int      `json:"lock_sites_rewritten"`
+	OnceSites      int      `json:"once_sites_rewritten"`
+	PoolSites      int      `json:"pool_sites_rewritten"`
+	AccSites       int      `json:"access_announcements"`
+	RaceUnmodelled []string `json:"sync_uses_not_modelled_by_race_detector"`
+	WGSites        int      `json:"waitgroup_sites_rewritten"`
+	ChanSites      int      `json:"channel_sites_rewritten"`
+	Unmodelled     []string `json:"unmodelled_blocking"`
+	DiskMode       string   `json:"disk_mode"`
+	LoopVarWarns   []string `json:"loopvar_capture_warnings"`
 }
 
 type fileCtx struct {
@@ -103,6 +106,7 @@ func main() {
 	dir := flag.String("dir", "", "package directory to rewrite in place")
 	simrt := flag.String("simrt", "", "directory holding verifsim.go")
 	sumFile := flag.String("summary", "", "where to write the summary JSON")
+	flag.StringVar(&accMode, "acc", "on", "on: announce package-level variable accesses and synchronisation edges to the race detector (R8); off: do not")
 	flag.StringVar(&osFileMode, "osfile", "sim", "sim: os.Open etc. return *verifsim.File; real: they keep returning *os.File (real files under the simulator's directory)")
 	flag.Parse()
 	if *dir == "" || *simrt == "" {
@@ -197,6 +201,277 @@ func main() {
 	}
 }
 
+var accMode = "on"
+
+// ---------------------------------------------------------------- R8: accesses to package-level variables
+
+var raceKeys = map[string]int{} // "var" or "var.field" -> id
+var raceNames []string
+
+func raceID(key string) int {
+	if id, ok := raceKeys[key]; ok {
+		return id
+	}
+	id := len(raceNames)
+	raceKeys[key] = id
+	raceNames = append(raceNames, key)
+	return id
+}
+
+func isSyncNamed(t types.Type) bool {
+	for {
+		p, ok := t.(*types.Pointer)
+		if !ok {
+			break
+		}
+		t = p.Elem()
+	}
+	n, ok := t.(*types.Named)
+	if !ok || n.Obj().Pkg() == nil {
+		return false
+	}
+	pp := n.Obj().Pkg().Path()
+	return pp == "sync" || pp == "sync/atomic"
+}
+
+type pkgAccess struct {
+	key   string
+	write bool
+}
+
+// pkgVarOf returns the package-level variable an identifier denotes, or nil.
+func pkgVarOf(id *ast.Ident, pkg *types.Package) *types.Var {
+	v, ok := info.Uses[id].(*types.Var)
+	if !ok || v.Pkg() != pkg || v.Parent() != pkg.Scope() || v.Name() == "_" {
+		return nil
+	}
+	return v
+}
+
+// accessPath analyses an expression that designates storage (an assignment target, the operand
+// of &, the receiver of a call ...).  It returns the tracked key the expression stays within -
+// the variable itself, or variable.field for a field of a struct-typed variable - and whether
+// assigning to the expression writes that key (true) or only reads it on the way to other
+// storage (an element of a slice, the pointee of a pointer: not tracked).
+func accessPath(e ast.Expr, pkg *types.Package) (key string, within bool, ok bool) {
+	switch x := ast.Unparen(e).(type) {
+	case *ast.Ident:
+		if v := pkgVarOf(x, pkg); v != nil {
+			if isSyncNamed(v.Type()) {
+				return "", false, false
+			}
+			return v.Name(), true, true
+		}
+	case *ast.SelectorExpr:
+		if k, w, ok := accessPath(x.X, pkg); ok {
+			if !w {
+				return k, false, true
+			}
+			if tv, ok2 := info.Types[x.X]; ok2 {
+				if _, isStruct := tv.Type.Underlying().(*types.Struct); isStruct {
+					if ft, ok3 := info.Types[x]; ok3 && isSyncNamed(ft.Type) {
+						return "", false, false
+					}
+					if strings.Count(k, ".") == 0 {
+						return k + "." + x.Sel.Name, true, true // field of a struct-typed variable
+					}
+					return k, true, true
+				}
+			}
+			return k, false, true // through a pointer: the variable is only read
+		}
+	case *ast.IndexExpr:
+		if k, w, ok := accessPath(x.X, pkg); ok {
+			if !w {
+				return k, false, true
+			}
+			if tv, ok2 := info.Types[x.X]; ok2 {
+				switch tv.Type.Underlying().(type) {
+				case *types.Map, *types.Array:
+					return k, true, true // a map entry / array element is part of the variable
+				}
+			}
+			return k, false, true // slice element, pointer to array: other storage
+		}
+	case *ast.StarExpr:
+		if k, _, ok := accessPath(x.X, pkg); ok {
+			return k, false, true
+		}
+	}
+	return "", false, false
+}
+
+// collectAccesses lists the package-level variables the given nodes read and write, not
+// descending into function literals (their statements announce their own accesses).
+func collectAccesses(pkg *types.Package, nodes ...ast.Node) []pkgAccess {
+	seen := map[string]int{}
+	var out []pkgAccess
+	add := func(key string, write bool) {
+		if key == "" {
+			return
+		}
+		if i, ok := seen[key]; ok {
+			if write {
+				out[i].write = true
+			}
+			return
+		}
+		seen[key] = len(out)
+		out = append(out, pkgAccess{key, write})
+	}
+	handled := map[*ast.Ident]bool{}
+	// target: e is assigned to (or otherwise modified in place)
+	target := func(e ast.Expr) {
+		if k, within, ok := accessPath(e, pkg); ok {
+			add(k, within) // assigning to storage outside the variable (slice element, pointee) only reads it
+			if id := rootIdent(e); id != nil {
+				handled[id] = true
+			}
+		}
+	}
+	for _, node := range nodes {
+		if node == nil || isNilNode(node) {
+			continue
+		}
+		// first pass: assignment targets and other writes
+		ast.Inspect(node, func(n ast.Node) bool {
+			switch y := n.(type) {
+			case *ast.FuncLit:
+				return false
+			case *ast.AssignStmt:
+				if y.Tok != token.DEFINE {
+					for _, l := range y.Lhs {
+						target(l)
+					}
+				}
+			case *ast.IncDecStmt:
+				target(y.X)
+			case *ast.RangeStmt:
+				if y.Tok == token.ASSIGN {
+					if y.Key != nil {
+						target(y.Key)
+					}
+					if y.Value != nil {
+						target(y.Value)
+					}
+				}
+			case *ast.CallExpr:
+				if id, ok := y.Fun.(*ast.Ident); ok {
+					if _, isB := info.Uses[id].(*types.Builtin); isB && (id.Name == "delete" || id.Name == "clear") && len(y.Args) > 0 {
+						if k, w, ok := accessPath(y.Args[0], pkg); ok && w {
+							add(k, true)
+						}
+					}
+				}
+				// the address argument of a sync/atomic function is an atomic access, not a plain one
+				if _, _, _, ok := isAnyPkgCall(y.Fun, map[string][]string{"sync/atomic": atomicFuncs}); ok && len(y.Args) > 0 {
+					if u, ok := ast.Unparen(y.Args[0]).(*ast.UnaryExpr); ok && u.Op == token.AND {
+						ast.Inspect(u.X, func(m ast.Node) bool {
+							if id, ok := m.(*ast.Ident); ok {
+								handled[id] = true
+							}
+							return true
+						})
+					}
+				}
+			}
+			return true
+		})
+		// second pass: everything else is a read; the outermost designator decides the key
+		ast.Inspect(node, func(n ast.Node) bool {
+			switch y := n.(type) {
+			case *ast.FuncLit:
+				return false
+			case *ast.SelectorExpr, *ast.IndexExpr, *ast.StarExpr:
+				if id := rootIdent(y.(ast.Expr)); id != nil && !handled[id] {
+					if k, _, ok := accessPath(y.(ast.Expr), pkg); ok {
+						add(k, false)
+						handled[id] = true
+					}
+				}
+			case *ast.Ident:
+				if handled[y] {
+					return true
+				}
+				if v := pkgVarOf(y, pkg); v != nil && !isSyncNamed(v.Type()) {
+					add(v.Name(), false)
+				}
+			}
+			return true
+		})
+	}
+	return out
+}
+
+func isNilNode(n ast.Node) bool {
+	switch x := n.(type) {
+	case ast.Expr:
+		return x == nil
+	case ast.Stmt:
+		return x == nil
+	}
+	return false
+}
+
+func rootIdent(e ast.Expr) *ast.Ident {
+	for {
+		switch y := ast.Unparen(e).(type) {
+		case *ast.SelectorExpr:
+			e = y.X
+		case *ast.IndexExpr:
+			e = y.X
+		case *ast.StarExpr:
+			e = y.X
+		case *ast.Ident:
+			return y
+		default:
+			return nil
+		}
+	}
+}
+
+var atomicFuncs = []string{
+	"AddInt32", "AddInt64", "AddUint32", "AddUint64", "AddUintptr",
+	"AndInt32", "AndInt64", "AndUint32", "AndUint64", "AndUintptr",
+	"OrInt32", "OrInt64", "OrUint32", "OrUint64", "OrUintptr",
+	"LoadInt32", "LoadInt64", "LoadUint32", "LoadUint64", "LoadUintptr", "LoadPointer",
+	"StoreInt32", "StoreInt64", "StoreUint32", "StoreUint64", "StoreUintptr", "StorePointer",
+	"SwapInt32", "SwapInt64", "SwapUint32", "SwapUint64", "SwapUintptr", "SwapPointer",
+	"CompareAndSwapInt32", "CompareAndSwapInt64", "CompareAndSwapUint32", "CompareAndSwapUint64", "CompareAndSwapUintptr", "CompareAndSwapPointer",
+}
+
+// headerNodes returns the parts of a statement that are evaluated when the statement itself is
+// reached (not the nested blocks, which announce their own statements).
+func headerNodes(s ast.Stmt) []ast.Node {
+	switch x := s.(type) {
+	case *ast.IfStmt:
+		n := []ast.Node{x.Init, x.Cond}
+		if e, ok := x.Else.(*ast.IfStmt); ok {
+			n = append(n, headerNodes(e)...) // an else-if has no place of its own for an announcement
+		}
+		return n
+	case *ast.ForStmt:
+		return []ast.Node{x.Init, x.Cond, x.Post}
+	case *ast.RangeStmt:
+		return []ast.Node{x.X, x.Key, x.Value}
+	case *ast.SwitchStmt:
+		n := []ast.Node{x.Init, x.Tag}
+		for _, c := range x.Body.List {
+			for _, e := range c.(*ast.CaseClause).List {
+				n = append(n, e)
+			}
+		}
+		return n
+	case *ast.TypeSwitchStmt:
+		return []ast.Node{x.Init, x.Assign}
+	case *ast.SelectStmt, *ast.BlockStmt:
+		return nil
+	case *ast.LabeledStmt:
+		return headerNodes(x.Stmt)
+	}
+	return []ast.Node{s}
+}
+
 func fatal(f string, a ...interface{}) {
 	fmt.Fprintf(os.Stderr, "instrument: "+f+"\n", a...)
 	os.Exit(2)
@@ -220,6 +495,9 @@ func apply(fc *fileCtx) []byte {
 	sort.SliceStable(fc.edits, func(i, j int) bool {
 		if fc.edits[i].off != fc.edits[j].off {
 			return fc.edits[i].off < fc.edits[j].off
+		}
+		if fc.edits[i].early != fc.edits[j].early {
+			return fc.edits[i].early // announcements placed before a statement precede whatever rewrites its start
 		}
 		if fc.edits[i].late != fc.edits[j].late {
 			return !fc.edits[i].late // statements appended after a statement follow whatever closes it
@@ -287,8 +565,12 @@ func syncMethod(sel *ast.SelectorExpr) string {
 		return ""
 	}
 	f, ok := se.Obj().(*types.Func)
-	if !ok || f.Pkg() == nil || f.Pkg().Path() != "sync" {
+	if !ok || f.Pkg() == nil || (f.Pkg().Path() != "sync" && f.Pkg().Path() != "sync/atomic") {
 		return ""
+	}
+	prefix := ""
+	if f.Pkg().Path() == "sync/atomic" {
+		prefix = "atomic."
 	}
 	sig, ok := f.Type().(*types.Signature)
 	if !ok || sig.Recv() == nil {
@@ -299,9 +581,20 @@ func syncMethod(sel *ast.SelectorExpr) string {
 		rt = p.Elem()
 	}
 	if n, ok := rt.(*types.Named); ok {
-		return n.Obj().Name() + "." + f.Name()
+		return prefix + n.Obj().Name() + "." + f.Name()
 	}
 	return ""
+}
+
+func atomicMethod(sel *ast.SelectorExpr) bool { return strings.HasPrefix(syncMethod(sel), "atomic.") }
+
+// syncKey spells the identity of the sync object a method is called on (for the race detector).
+func syncKey(sel *ast.SelectorExpr, src string) string {
+	recv, isPtr := syncRecv(sel, src)
+	if isPtr {
+		return recv
+	}
+	return "&(" + recv + ")"
 }
 
 func isChan(e ast.Expr) bool {
@@ -375,6 +668,7 @@ func sharedWrite(e ast.Expr) bool {
 }
 
 func rewriteFile(fc *fileCtx, pkg *types.Package) {
+	_ = pkg
 	removed := map[string]int{}       // import path -> uses rewritten away
 	leaveAlone := map[ast.Node]bool{} // channel operations that are the communication of a select clause
 	recv2 := map[ast.Node]bool{}      // receive expressions of the form v, ok := <-ch
@@ -387,9 +681,48 @@ func rewriteFile(fc *fileCtx, pkg *types.Package) {
 		fc.insert(s.End(), fmt.Sprintf("; verifsim.Yield(%d)", id))
 		fc.edits[len(fc.edits)-1].late = true
 	}
+	announce := func(at token.Pos, s ast.Stmt, extra ...ast.Node) {
+		if accMode != "on" {
+			return
+		}
+		var nodes []ast.Node
+		if s != nil {
+			nodes = headerNodes(s)
+		}
+		nodes = append(nodes, extra...)
+		acc := collectAccesses(pkg, nodes...)
+		if len(acc) == 0 {
+			return
+		}
+		mode, ids := "", ""
+		for _, a := range acc {
+			if a.write {
+				mode += "w"
+			} else {
+				mode += "r"
+			}
+			ids += fmt.Sprintf(", %d", raceID(a.key))
+		}
+		id := newSite("access", at, curFunc)
+		fc.insert(at, fmt.Sprintf("verifsim.Acc(%d, %q%s);", id, mode, ids))
+		fc.edits[len(fc.edits)-1].early = true
+		sum.AccSites++
+	}
 	stmts = func(list []ast.Stmt) {
 		for _, s := range list {
+			switch s.(type) {
+			case *ast.CaseClause, *ast.CommClause:
+				continue // (the body of a switch is a block whose "statements" are its clauses)
+			}
+			announce(s.Pos(), s)
+			if f, ok := s.(*ast.ForStmt); ok && (f.Cond != nil || f.Post != nil) {
+				// condition and post statement are evaluated again on every iteration
+				announce(f.Body.Lbrace+1, nil, f.Cond, f.Post)
+			}
 			if ls, ok := s.(*ast.LabeledStmt); ok {
+				if f, ok := ls.Stmt.(*ast.ForStmt); ok && (f.Cond != nil || f.Post != nil) {
+					announce(f.Body.Lbrace+1, nil, f.Cond, f.Post)
+				}
 				s = ls.Stmt
 			}
 			switch x := s.(type) {
@@ -581,6 +914,14 @@ func rewriteFile(fc *fileCtx, pkg *types.Package) {
 					}
 				}
 			}
+			if _, _, _, ok := isAnyPkgCall(x.Fun, map[string][]string{"sync/atomic": atomicFuncs}); ok && len(x.Args) > 0 && accMode == "on" {
+				// atomic.AddInt64(&x, 1)  ->  atomic.AddInt64(verifsim.AtomicPtr(&x), 1)
+				fc.insert(x.Args[0].Pos(), "verifsim.AtomicPtr(")
+				fc.insert(x.Args[0].End(), ")")
+			}
+			if sel, _, _, ok := isAnyPkgCall(x.Fun, map[string][]string{"sync": {"OnceFunc", "OnceValue", "OnceValues", "NewCond"}}); ok {
+				sum.RaceUnmodelled = append(sum.RaceUnmodelled, "sync."+sel.Sel.Name)
+			}
 			if sel, _, _, ok := isAnyPkgCall(x.Fun, map[string][]string{"time": {"AfterFunc", "NewTimer", "NewTicker", "Tick"}}); ok {
 				sum.Unmodelled = append(sum.Unmodelled, "time."+sel.Sel.Name)
 			}
@@ -635,14 +976,20 @@ func rewriteFile(fc *fileCtx, pkg *types.Package) {
 			} else if sel, ok := x.Fun.(*ast.SelectorExpr); ok && syncMethod(sel) != "" {
 				switch m := syncMethod(sel); m {
 				case "Mutex.Lock", "RWMutex.Lock":
-					// X.Lock()  ->  verifsim.SimLock(X.Lock, X.TryLock)
+					// X.Lock()  ->  verifsim.SimLock(X.Lock, X.TryLock, &X)
 					recv := string(fc.src[fc.off(sel.X.Pos()):fc.off(sel.X.End())])
-					fc.replace(x.Pos(), x.End(), "verifsim.SimLock("+recv+".Lock, "+recv+".TryLock)")
+					fc.replace(x.Pos(), x.End(), "verifsim.SimLock("+recv+".Lock, "+recv+".TryLock, "+syncKey(sel, recv)+")")
 					sum.LockSites++
 				case "RWMutex.RLock":
 					recv := string(fc.src[fc.off(sel.X.Pos()):fc.off(sel.X.End())])
-					fc.replace(x.Pos(), x.End(), "verifsim.SimLock("+recv+".RLock, "+recv+".TryRLock)")
+					fc.replace(x.Pos(), x.End(), "verifsim.SimLock("+recv+".RLock, "+recv+".TryRLock, "+syncKey(sel, recv)+")")
 					sum.LockSites++
+				case "Mutex.Unlock", "RWMutex.Unlock", "RWMutex.RUnlock":
+					// X.Unlock()  ->  verifsim.SimUnlock(X.Unlock, &X): the release edge for the race detector
+					if accMode == "on" {
+						recv := string(fc.src[fc.off(sel.X.Pos()):fc.off(sel.X.End())])
+						fc.replace(x.Pos(), x.End(), "verifsim.SimUnlock("+recv+"."+sel.Sel.Name+", "+syncKey(sel, recv)+")")
+					}
 				case "Once.Do":
 					if len(x.Args) == 1 {
 						// X.Do(f)  ->  verifsim.SimOnce(&(X), f); f stays in place (it may carry edits of its own)
@@ -688,6 +1035,23 @@ func rewriteFile(fc *fileCtx, pkg *types.Package) {
 					sum.WGSites++
 				case "Cond.Wait":
 					sum.Unmodelled = append(sum.Unmodelled, m)
+					sum.RaceUnmodelled = append(sum.RaceUnmodelled, m)
+				default:
+					if strings.HasPrefix(m, "Map.") || atomicMethod(sel) {
+						// sync.Map and the sync/atomic types: every operation acquires and releases
+						if accMode == "on" && sel.Sel.Name != "Range" {
+							recv, isPtr := syncRecv(sel, string(fc.src[fc.off(sel.X.Pos()):fc.off(sel.X.End())]))
+							amp := "&"
+							if isPtr {
+								amp = ""
+							}
+							fc.replace(sel.X.Pos(), sel.X.End(), "verifsim.AtomicObj("+amp+"("+recv+"))")
+						} else if sel.Sel.Name == "Range" {
+							sum.RaceUnmodelled = append(sum.RaceUnmodelled, m)
+						}
+					} else {
+						sum.RaceUnmodelled = append(sum.RaceUnmodelled, m)
+					}
 				}
 			} else if sel, ok := x.Fun.(*ast.SelectorExpr); ok && sel.Sel.Name == "MapKeys" && len(x.Args) == 0 {
 				if tv, ok := info.Types[sel.X]; ok && tv.Type != nil && tv.Type.String() == "reflect.Value" {
@@ -756,6 +1120,10 @@ func writeGlobals(dir string, pkg *types.Package) {
 	b.WriteString("var VerifSites = []string{\n")
 	for _, s := range sum.Sites {
 		fmt.Fprintf(&b, "\t%q,\n", s.Kind+" "+s.Pos+" "+s.Func)
+	}
+	b.WriteString("}\n\n// VerifRaceNames maps the ids announced through verifsim.Acc to variable (or variable.field) names.\nvar VerifRaceNames = []string{\n")
+	for _, n := range raceNames {
+		fmt.Fprintf(&b, "\t%q,\n", n)
 	}
 	b.WriteString("}\n")
 	if err := os.WriteFile(filepath.Join(dir, "verif_globals.go"), []byte(b.String()), 0o644); err != nil {
